@@ -7,6 +7,16 @@ import subprocess
 HERE = os.path.dirname(os.path.dirname(os.path.abspath(__file__)))
 
 CHECKS = {
+    "C11": dict(
+        category="exploration",
+        technique="runtime monitoring: transport-boundary capture + reference multipart/JSON oracle; schedule stress (asyncio.gather with seeded awaits, 8 threads at 1us switch interval, sys.monitoring LINE yield injection) with per-call unique ids",
+        text="Seeded variable trees (dicts, lists, models, UNSET, None, Uploads at any depth, shared Uploads, enum/datetime leaves) x kwargs are sent through all "
+             "six bundled client variants; every captured request is decoded and compared with an expectation the generator computed in parallel, and the "
+             "variants are compared pairwise. 32 concurrent calls on one client are run under asyncio and thread schedules (with yield injection); each "
+             "request must equal the one the same call sends in isolation and each response must reach its caller. Observed interleavings are counted.",
+        note="Trusted: httpx.MockTransport, requests_toolbelt multipart decoder. Schedules are sampled, not enumerated.",
+        design="4/C11",
+    ),
     "C12": dict(
         category="fault_enumeration",
         technique="runtime monitoring: decision-function oracle over the real get_data of the 4 bundled clients (7 variants) on the full status x body-class product, plus generated methods through MockTransport",
